@@ -334,6 +334,11 @@ def _parse_for_verify(raw, plan, amounts):
 def check(ctx, case):
     from props import txplan
     plan = case['plan']
+    if case.get('sign_style', 'per_input') != 'per_input' and any(i.get('keyless') for i in plan['inputs']):
+        # an input that is known by its address only takes whatever keys a sign() call offers as its own (documented:
+        # "if input does not contain any keys, try using provided keys"): keys of other inputs may not be offered to it
+        case = dict(case, sign_style='per_input')
+        ctx.klass('sign_style.per_input_forced_by_keyless_input')
     if case.get('sign_style', 'per_input') != 'per_input':
         # keys handed over without naming an input are offered to every input: a key that also belongs to another
         # input signs there as well
